@@ -11,6 +11,18 @@ CHECKS = {
  "C02": dict(technique="reference-model monitor over recorded panels: Q over all grid choices per (agent, period) row; in-situ post-conditions on argmax/segment_argmax and on the data state-choice space inside real simulate() runs",
              text="Held on K generated models x initial-state batches x three kinds of value arrays (own solution, reference solution, random): every in-scope row's choices are grid values, feasible and value-maximal by the reference model's Q. Exploration over generated structure; judged on values so ties cannot alarm.",
              ref="5/C02", note="trusted: numpy reference Q-values and path-validity screening; harness jax.util shim"),
+ "C03": dict(technique="trace checker over recorded panels: deterministic successors recomputed by the reference per (agent,t) row; stochastic successors checked against row-specific supports of the transition arrays",
+             text="Held on K generated models: period-0 columns equal the inputs; every in-scope deterministic transition equals the user's transition function at the same row; every stochastic draw has positive probability in the agent's row (arrays built with 1-2-label row-specific supports so a wrong row/order/period is hit w.p. >= 1/2 per draw).",
+             ref="5/C03", note="trusted: numpy evaluation of user transition functions; scope tracking along paths"),
+ "C06": dict(technique="cross-check monitor: simulated value of on-grid rows vs entry of lcm's own solved arrays (addressed through the reference layout); frame equality solve_and_simulate vs simulate(solve(p))",
+             text="Held on K generated models incl. fully discrete models (all periods on-grid) and node-to-node continuous transitions; exploration.",
+             ref="5/C06", note="trusted: reference layout map (decided separately by C05)"),
+ "C08": dict(technique="metamorphic monitor: same agents simulated in permuted / subset / duplicated / single-agent batches and with reversed key order; paths keyed by agent id compared; ties adjudicated by reference Q-gap",
+             text="Held on K deterministic generated models x 6 batch variants each (period 0 only for stochastic models); exploration.",
+             ref="5/C08", note="trusted: reference Q-values for tie adjudication; only rows inside the model's space are compared"),
+ "C13": dict(technique="structural oracle on the returned DataFrame + reference re-evaluation of every additional-target column at every in-scope row",
+             text="Held on K generated models x N in {1,2,7,64} x target subsets: index, order, columns, _period, agent identity (law-of-motion chain) exact; target columns equal the model functions at the row.",
+             ref="5/C13", note="trusted: numpy evaluation of user functions"),
 }
 DEFAULT_NA = "check not built yet in this revision of /verif (planned in DESIGN.md section 5)"
 
